@@ -141,7 +141,7 @@ theorem okshape_slice {c : Chain} (hc : c.WF) {t : Task} {db : DB} {sc : Script}
   have := hdf.le
   have := clip_le t target0
   rcases load_chain hc t s1 s2 lh (ln + 1) d _ hsc1 hb hcc hcb hd1 (by omega) (by omega) (by omega) hl
-    with h | h | ⟨k, hk1, hk2, hk3, ⟨h, _⟩ | ⟨h, hlh⟩⟩
+    with h | ⟨h, _⟩ | ⟨k, hk1, hk2, hk3, ⟨h, _⟩ | ⟨h, hlh⟩⟩
   · cases h
   · cases h
   · cases h
